@@ -3,7 +3,9 @@
 // Harness for collect/cache.cuckooSentCache (property C31).
 //
 // case header: kcap=<KeptSize> dcap=<DroppedSize> w=<WorkerCount> dslots=<slots of the first filter>
-//              u=<id universe> salt=<n>
+//              u=<id universe> salt=<n> [idlen=<L> idpfx=<P> fam=<F>]
+// Trace id strings: without idlen the legacy "<salt>-%05d"; with idlen=L every id is L bytes long and
+// ids k, k' of the same family (k/F == k'/F) share their first P bytes (P=0: no sharing).
 // ops:
 //   rk <id> <rate> <reason> <ev> <se> <sl> <sp>   Record(trace, keep=true, reason)
 //   rd <id>                                       Record(trace, keep=false, "")
@@ -170,6 +172,20 @@ func (comp) Gen(r *kit.Rng, maxLen int, tier string) kit.Case {
 		u = 40
 	}
 	salt := r.Intn(1 << 30)
+	// id shapes: lengths around the 16/32-byte marks, families sharing a 16- or 32-byte prefix
+	idlens := []int{16, 32, 33, 36, 48, 64, 100}
+	idlen := idlens[r.Intn(len(idlens))]
+	var pfxs []int
+	for _, p := range []int{0, 8, 16, 32} {
+		if p < idlen {
+			pfxs = append(pfxs, p)
+		}
+	}
+	idpfx := pfxs[r.Intn(len(pfxs))]
+	if idpfx == 0 && len(pfxs) > 1 && r.Chance(60) {
+		idpfx = pfxs[1+r.Intn(len(pfxs)-1)] // mostly shared prefixes
+	}
+	fam := 2 + r.Intn(3)
 	n := 8 + r.Intn(maxLen)
 	rates := []uint64{1, 1, 2, 10, 100, 65535, 4294967295}
 	now := int64(0)
@@ -177,11 +193,20 @@ func (comp) Gen(r *kit.Rng, maxLen int, tier string) kit.Case {
 	qlen := 0
 	var ops []string
 	hot := r.Intn(u) // one id gets most of the dropped/kept overlap
+	last := hot
 	pickID := func() int {
-		if r.Chance(25) {
-			return hot
+		id := r.Intn(u)
+		switch {
+		case r.Chance(25):
+			id = hot
+		case r.Chance(30): // a sibling of the id used last (same family, same prefix)
+			id = last/fam*fam + r.Intn(fam)
+			if id >= u {
+				id = last
+			}
 		}
-		return r.Intn(u)
+		last = id
+		return id
 	}
 	floods := 0
 	allowFlood := r.Chance(8)
@@ -284,7 +309,8 @@ func (comp) Gen(r *kit.Rng, maxLen int, tier string) kit.Case {
 			ops = append(ops, fmt.Sprintf("cs %d %d", id, r.Intn(3)))
 		}
 	}
-	hdr := fmt.Sprintf("kcap=%d dcap=%d w=%d dslots=%d u=%d salt=%d", kcap, dcap, w, slotsOf(perD), u, salt)
+	hdr := fmt.Sprintf("kcap=%d dcap=%d w=%d dslots=%d u=%d salt=%d idlen=%d idpfx=%d fam=%d", kcap, dcap, w,
+		slotsOf(perD), u, salt, idlen, idpfx, fam)
 	return kit.Case{Header: hdr, Ops: ops}
 }
 
@@ -297,11 +323,77 @@ type runner struct {
 	u     int
 	salt  string
 	bad   bool
+	// id shape
+	idlen, idpfx, fam int
+	// reference for "is a dropped answer explicable by the filter library": every id ever recorded
+	// as dropped, and per filter capacity ever configured one single-element library filter per such
+	// id, keyed on the FULL id.  An id X can be a false positive of a real filter of that capacity
+	// only if it is found in the single-element filter of some dropped id Y (same fingerprint, same
+	// bucket pair - kicks only move a fingerprint between its own two buckets), so this is exact up
+	// to "Y is still in the filter", needs no randomness and no threshold.
+	dropped map[string]bool
+	order   []string
+	caps    []uint
+	refs    map[uint][]*cuckoo.Filter
+}
+
+func single(capacity uint, id string) *cuckoo.Filter {
+	f := cuckoo.NewFilter(capacity)
+	f.Insert([]byte(id))
+	return f
+}
+
+func (r *runner) addCap(c uint) {
+	for _, x := range r.caps {
+		if x == c {
+			return
+		}
+	}
+	r.caps = append(r.caps, c)
+	fs := make([]*cuckoo.Filter, 0, len(r.order))
+	for _, id := range r.order {
+		fs = append(fs, single(c, id))
+	}
+	r.refs[c] = fs
+}
+
+func (r *runner) noteDropped(id string) {
+	if r.dropped[id] {
+		return
+	}
+	r.dropped[id] = true
+	r.order = append(r.order, id)
+	for _, c := range r.caps {
+		r.refs[c] = append(r.refs[c], single(c, id))
+	}
+}
+
+// explicable: the library, keyed on the full id, could answer "contained" for id in a filter of
+// some capacity this cache has used, given the ids recorded as dropped so far.
+func (r *runner) explicable(id string) bool {
+	if r.dropped[id] {
+		return true
+	}
+	b := []byte(id)
+	for _, c := range r.caps {
+		for _, f := range r.refs[c] {
+			if f.Lookup(b) {
+				return true
+			}
+		}
+	}
+	return false
 }
 
 func (comp) NewCase(h []string) kit.Runner {
 	num := func(k string) uint { n, _ := strconv.ParseUint(kit.KV(h, k), 10, 64); return uint(n) }
-	r := &runner{clock: clockwork.NewFakeClock(), u: int(num("u")), salt: kit.KV(h, "salt")}
+	r := &runner{clock: clockwork.NewFakeClock(), u: int(num("u")), salt: kit.KV(h, "salt"),
+		idlen: int(num("idlen")), idpfx: int(num("idpfx")), fam: int(num("fam")),
+		dropped: map[string]bool{}, refs: map[uint][]*cuckoo.Filter{}}
+	if r.fam < 1 {
+		r.fam = 1
+	}
+	r.addCap(perWorker(num("dcap"), num("w")))
 	c, err := newCache(num("kcap"), num("dcap"), num("w"))
 	if err != nil {
 		r.bad = true
@@ -312,7 +404,23 @@ func (comp) NewCase(h []string) kit.Runner {
 	return r
 }
 
-func (r *runner) id(k int) string { return fmt.Sprintf("%s-%05d", r.salt, k) }
+func (r *runner) id(k int) string {
+	if r.idlen == 0 {
+		return fmt.Sprintf("%s-%05d", r.salt, k)
+	}
+	salt, _ := strconv.Atoi(r.salt)
+	L, P := r.idlen, r.idpfx
+	if P <= 0 || P >= L {
+		return fmt.Sprintf("%08x%0*x", salt, L-8, k)
+	}
+	var pfx string
+	if P >= 16 {
+		pfx = fmt.Sprintf("%08x%0*x", salt, P-8, k/r.fam)
+	} else {
+		pfx = fmt.Sprintf("%0*x%0*x", P/2, salt&(1<<(2*uint(P))-1), P-P/2, k/r.fam)
+	}
+	return pfx + fmt.Sprintf("%x", k%r.fam) + strings.Repeat("z", L-P-1)
+}
 
 // truth lists, for one filter object, its insert count and the universe ids it answers for.
 func (r *runner) truth(name string, f *cuckoo.Filter) {
@@ -378,20 +486,29 @@ func (r *runner) Do(op []string) (string, bool) {
 		r.c.Record(t, true, reason)
 		return "", false
 	case "rd":
+		r.noteDropped(r.id(arg(1)))
 		r.c.Record(&ktrace{id: r.id(arg(1))}, false, "")
 		return "", false
 	case "flood":
 		for k := 0; k < arg(2); k++ {
+			r.noteDropped(r.id(arg(1) + k))
 			r.c.Record(&ktrace{id: r.id(arg(1) + k)}, false, "")
 		}
 		return "", false
 	case "cs", "ct":
 		id := r.id(arg(1))
+		// chk: the library's answer for the FULL id on the cache's current filter object (asked by the
+		// harness itself, not through the code under verification)
 		chk := 0
-		if r.v.FilterCheck(id) {
+		if cur, _ := r.v.Filters(); cur != nil && cur.Lookup([]byte(id)) {
 			chk = 1
 		}
 		kit.Ext("chk = %d", chk)
+		fp := 0
+		if r.explicable(id) {
+			fp = 1
+		}
+		kit.Ext("fp %d = %d", arg(1), fp)
 		if op[0] == "ct" {
 			return r.answer(r.c.CheckTrace(id)), true
 		}
@@ -430,6 +547,7 @@ func (r *runner) Do(op []string) (string, bool) {
 		}
 		return fmt.Sprintf("cur=%s fut=%s rot=%d old=%s q=%d recent=%d", load(nc), load(nf), rot, load(oc), r.v.QueueLen(), recent), true
 	case "resize":
+		r.addCap(perWorker(uarg(2), uarg(3)))
 		cfg := config.SampleCacheConfig{KeptSize: uarg(1), DroppedSize: uarg(2), WorkerCount: uarg(3),
 			SizeCheckInterval: config.Duration(1000 * time.Hour)}
 		if err := r.c.Resize(cfg); err != nil {
